@@ -87,3 +87,11 @@ func (s metricSnapshot) putDiscards(storageType string) float64 {
 	return s["buildbarn_blobstore_hashing_key_location_map_put_too_many_iterations_total,storage_type="+storageType] +
 		s["buildbarn_blobstore_hashing_key_location_map_put_iterations,outcome=TooManyAttempts,storage_type="+storageType+"_count"]
 }
+
+// indexDiscardCount: discards reported by the key-location index collectors,
+// for stores built from parts (storage type "sim") and by
+// NewBlobAccessFromConfiguration (storage type "cas").
+func indexDiscardCount() float64 {
+	m := gatherMetrics()
+	return m.indexDiscards("sim") + m.indexDiscards("cas")
+}
